@@ -197,6 +197,8 @@ class RationalPolynomial:
         return self.numer == other.numer and self.denom == other.denom
 
     def __add__(self, other):
+        if hasattr(other, 'algebra'):
+            return NotImplemented  # A multivector knows how to add a coefficient to itself.
         if not isinstance(other, self.__class__):
             other = self.__class__(other if isinstance(other, Polynomial) else [[other]])
 
@@ -220,6 +222,8 @@ class RationalPolynomial:
         return self.__add__(other)
 
     def __mul__(self, other):
+        if hasattr(other, 'algebra'):
+            return NotImplemented  # A multivector knows how to multiply itself by a coefficient.
         if not isinstance(other, self.__class__):
             other = self.__class__([[other]])
 
